@@ -347,6 +347,7 @@ pub struct Rw<'c> {
     pub local_types: std::collections::BTreeMap<String, String>,   // declared types of parameters and of locals that are clones of them
 }
 /// a closure literal or async block that is used as a value (rules L1 / A3)
+#[derive(Clone)]
 pub struct LiftedClosure { pub cap_types: Vec<Option<String>>, pub k: usize, pub name: String, pub captures: Vec<String>, pub is_move: bool, pub inputs: Vec<syn::Pat>, pub body: syn::Block, pub is_async_block: bool, pub line: usize }
 fn name_for_ctor(c: &syn::Ident) -> String { c.to_string().trim_end_matches("__new").to_string() }
 fn ident(s: &str) -> syn::Ident { syn::Ident::new(s, Span::call_site()) }
@@ -452,7 +453,7 @@ impl<'c> Rw<'c> {
                 }
             }
             ("zip", 1) => { let a = &m.args[0]; Some(parse_quote!(match (#recv, #a) { (Some(hx_a), Some(hx_b)) => Some((hx_a, hx_b)), _ => None })) }
-            ("map", 1) | ("and_then", 1) | ("filter", 1) | ("is_some_and", 1) | ("is_none_or", 1) | ("map_err", 1) => {
+            ("map", 1) | ("and_then", 1) | ("filter", 1) | ("is_some_and", 1) | ("is_none_or", 1) | ("map_err", 1) | ("map__hxres", 1) | ("and_then__hxres", 1) => {
                 let a = &m.args[0];
                 // the function applied to the bound value
                 let (pat, app): (syn::Pat, Option<Expr>) = match a {
@@ -473,6 +474,16 @@ impl<'c> Rw<'c> {
                     _ => return,
                 };
                 let app = app.unwrap();
+                // C1r: the receiver is a Result when it was just made by `ok_or` / `ok_or_else` / `map_err`, or when the adapter chain is the
+                // tail expression of a function that returns a Result (emit_fn marks those `__hxres`)
+                let recv_is_result = name.ends_with("__hxres") || matches!(&recv, Expr::MethodCall(r) if matches!(r.method.to_string().as_str(), "ok_or" | "ok_or_else" | "map_err"))
+                    || matches!(&recv, Expr::Match(mm) if { let t = nospace(&mm.to_token_stream().to_string()); t.contains("=>Ok(") && t.contains("=>Err(") });
+                let name = name.trim_end_matches("__hxres").to_string();
+                if recv_is_result && (name == "map" || name == "and_then") {
+                    self.cx.fire("C1r");
+                    let n: Expr = if name == "map" { parse_quote!(match #recv { Ok(#pat) => Ok(#app), Err(hx_e) => Err(hx_e) }) } else { parse_quote!(match #recv { Ok(#pat) => #app, Err(hx_e) => Err(hx_e) }) };
+                    *e = n; self.cx.fire("C1"); return;
+                }
                 match name.as_str() {
                     "map" => Some(parse_quote!(match #recv { Some(#pat) => Some(#app), None => None })),
                     "and_then" => Some(parse_quote!(match #recv { Some(#pat) => #app, None => None })),
@@ -544,13 +555,33 @@ impl<'c> VisitMut for Rw<'c> {
             if let Stmt::Local(l) = st {
                 l.attrs.clear();
                 // a local that is a clone of a typed place has that type (used only to type captures the spec does not name)
-                if let (syn::Pat::Ident(pi), Some(init)) = (&l.pat, &l.init) {
+                // `lettype`: `let (a, mut b) = path::<T>(..)` with a configured path types a and b
+                if let (syn::Pat::Tuple(pt), Some(init)) = (&l.pat, &l.init) { if let Expr::Call(c) = &*init.expr { if let Expr::Path(fp) = &*c.func {
+                    let mut bare = fp.path.clone(); let mut targ: Option<String> = None;
+                    if let Some(last) = bare.segments.last_mut() { if let syn::PathArguments::AngleBracketed(ab) = &last.arguments { targ = ab.args.first().map(|a| crate::util::tidy(&a.to_token_stream().to_string())); } last.arguments = syn::PathArguments::None; }
+                    let key = nospace(&bare.to_token_stream().to_string());
+                    for (pth, tys) in self.cx.unit.lettypes.clone() {
+                        let pk = pth.split("::<").next().unwrap_or(&pth).to_string();
+                        if pk == key && tys.len() == pt.elems.len() {
+                            for (el, ty) in pt.elems.iter().zip(tys.iter()) { if let syn::Pat::Ident(pi) = el { let t = match &targ { Some(a) => ty.replace("$1", a), None => ty.clone() }; if !t.contains('$') { let mut ty2: syn::Type = match syn::parse_str(&t) { Ok(x) => x, Err(_) => continue }; map_type(&mut ty2, self.cx); self.local_types.insert(pi.ident.to_string(), crate::util::tidy(&ty2.to_token_stream().to_string())); } } }
+                        }
+                    }
+                } } }
+                let pat_ident: Option<syn::PatIdent> = match &l.pat { syn::Pat::Ident(pi) => Some(pi.clone()), syn::Pat::Type(pt) => if let syn::Pat::Ident(pi) = &*pt.pat { if pt.ty.to_token_stream().to_string().contains('_') { Some(pi.clone()) } else { None } } else { None }, _ => None };
+                if let (Some(pi), Some(init)) = (&pat_ident, &l.init) {
                     let src: Option<String> = match &*init.expr {
                         Expr::MethodCall(m) if (m.method == "clone" || m.method == "to_owned") && m.args.is_empty() => match &*m.receiver { Expr::Path(p) => p.path.get_ident().map(|i| i.to_string()), _ => None },
                         Expr::Call(c) if c.args.len() == 1 && matches!(nospace(&c.func.to_token_stream().to_string()).as_str(), "Arc::clone" | "Weak::clone" | "std::sync::Arc::clone" | "std::sync::Weak::clone") => match &c.args[0] { Expr::Reference(r) => match &*r.expr { Expr::Path(p) => p.path.get_ident().map(|i| i.to_string()), _ => None }, _ => None },
                         _ => None,
                     };
                     if let Some(sn) = src { if let Some(t) = self.local_types.get(&sn).cloned() { self.local_types.insert(pi.ident.to_string(), t); } }
+                    // a weak handle made from a typed strong one: only a marker (`?Weak<T>`, never emitted as a type) so that a capture that
+                    // became weak is not mistaken for a renamed strong one (rule L1q)
+                    let dsrc: Option<String> = match &*init.expr {
+                        Expr::MethodCall(m) if m.method == "downgrade" && m.args.is_empty() => match &*m.receiver { Expr::Path(p) => p.path.get_ident().map(|i| i.to_string()), _ => None },
+                        Expr::Call(c) if c.args.len() == 1 && nospace(&c.func.to_token_stream().to_string()).ends_with("Arc::downgrade") => match &c.args[0] { Expr::Reference(r) => match &*r.expr { Expr::Path(p) => p.path.get_ident().map(|i| i.to_string()), _ => None }, _ => None },
+                        _ => None };
+                    if let Some(sn) = dsrc { if let Some(t) = self.local_types.get(&sn).cloned() { self.local_types.insert(pi.ident.to_string(), format!("?Weak<{}>", t.trim_start_matches('?'))); } }
                     let it = nospace(&init.expr.to_token_stream().to_string());
                     if it.starts_with("Arc::new(AtomicBool::new(") || it.starts_with("AtomicBool::new(") { self.local_types.insert(pi.ident.to_string(), "AtomicBoolV".to_string()); }
                     if it == "true" || it == "false" { self.local_types.insert(pi.ident.to_string(), "bool".to_string()); }
